@@ -67,6 +67,10 @@ func VerifNewFECDecoder(dataShards, parityShards int) *VerifFECDecoder {
 // the caller owns them (kcpInput returns them to the pool).
 func (v *VerifFECDecoder) Decode(in []byte) [][]byte { return v.d.decode(fecPacket(in)) }
 
+// SetNewestShardID presets newestShardId (a decoder that has been following a stream whose ids
+// are far from 0; ids more than 2^31 ahead of the newest one count as old).
+func (v *VerifFECDecoder) SetNewestShardID(id uint32) { v.d.newestShardId = id }
+
 // VerifShardSetState describes one entry of the decoder's shardSet map.
 type VerifShardSetState struct {
 	ID     uint32
